@@ -265,6 +265,14 @@ func (g *gen) opAliasTokens() bool {
 		}
 		// and the NFT onto the holder of the fungible one
 		g.do(g.user(oracle.FnNFTTransfer, x.a, x.a, bigGas, x.h.tok, x.h.nb(), []byte{1}, b))
+		if g.r.Intn(3) == 0 {
+			// the pause flag of the fungible id T‖n sits under the NFT's own key: the second gate of the NFT save sees it
+			sh := g.shardOf(x.a)
+			g.do(spec{shard: sh, fn: oracle.FnPause, caller: oracle.ESDTSC, rcv: oracle.SystemAccount, args: [][]byte{f}})
+			g.do(g.user(oracle.FnNFTTransfer, x.a, x.a, bigGas, x.h.tok, x.h.nb(), []byte{1}, b))
+			g.do(g.user(oracle.FnNFTBurn, x.a, x.a, bigGas, x.h.tok, x.h.nb(), []byte{1}))
+			g.do(spec{shard: sh, fn: oracle.FnUnPause, caller: oracle.ESDTSC, rcv: oracle.SystemAccount, args: [][]byte{f}})
+		}
 		return true
 	}
 	t := x.h.tok
@@ -684,12 +692,17 @@ func (g *gen) scenario(fn string) (spec, bool) {
 	case oracle.FnChangeOwner:
 		c := g.pick(g.contracts)
 		if acc := g.acct(c); acc != nil && len(acc.Owner()) == 32 && g.shardOf(acc.Owner()) >= 0 {
-			return g.user(fn, acc.Owner(), c, bigGas, g.pick(g.users)), true
+			// the new owner is a user or (one time in four) another contract
+			next := g.pick(g.users)
+			if g.r.Intn(4) == 0 {
+				next = g.pick(g.accounts)
+			}
+			return g.secondLeg(g.user(fn, acc.Owner(), c, bigGas, next)), true
 		}
 	case oracle.FnClaim:
 		c := g.pick(g.contracts)
 		if acc := g.acct(c); acc != nil && len(acc.Owner()) == 32 && g.shardOf(acc.Owner()) >= 0 {
-			return g.user(fn, acc.Owner(), c, bigGas), true
+			return g.secondLeg(g.user(fn, acc.Owner(), c, bigGas)), true
 		}
 	case oracle.FnSetUserName:
 		d := g.pick(g.dns)
@@ -697,6 +710,33 @@ func (g *gen) scenario(fn string) (spec, bool) {
 		return g.user(fn, d, u, bigGas, []byte("name"+string(rune('a'+g.r.Intn(26))))), true
 	}
 	return spec{}, false
+}
+
+// secondLeg: an account-level call whose receiver lives on another shard travels there as the transaction itself; one
+// time in two the call is the leg executed on the receiver's shard (sender account absent) instead of the first one.
+func (g *gen) secondLeg(sp spec) spec {
+	if d := g.shardOf(sp.rcv); d >= 0 && d != sp.shard && g.r.Intn(2) == 0 {
+		sp.shard = d
+	}
+	return sp
+}
+
+// opSysTransfer: the ESDT system contract sends a fungible token to an account (how issued / minted supply reaches a
+// shard): executed on the receiver's shard, no payability check for this caller, the freeze / pause gates of the
+// receiving account apply.
+func (g *gen) opSysTransfer() bool {
+	if len(g.fung) == 0 {
+		return false
+	}
+	tok := g.pick(g.fung)
+	rcv := g.pick(g.accounts)
+	sp := g.sys(oracle.FnTransfer, rcv, tok, []byte{byte(1 + g.r.Intn(200))})
+	if g.r.Intn(4) == 0 {
+		sp.args = append(sp.args, []byte("init"), []byte{1})
+	}
+	sp.gas = bigGas
+	g.do(sp)
+	return true
 }
 
 func (g *gen) handOverInFlight(tok []byte) bool {
